@@ -3,6 +3,7 @@
 package composite
 
 import (
+	"net/http"
 	"fmt"
 	"github.com/go-logr/logr"
 	"github.com/go-logr/logr/funcr"
@@ -429,6 +430,20 @@ func TestVerifC17Race(t *testing.T) {
 					w.DeliverAll()
 				}
 			}
+			// ... and once more with the hook failing for every call: several per-revision calls of one sync fail at
+			// the same time
+			w.Hooks.Handle("/cc/sync", func(hc *world.HookCall) (int, http.Header, []byte, error) {
+				return 500, nil, []byte("down"), nil
+			})
+			var wg sync.WaitGroup
+			for _, pn := range []string{"p1", "p2", "p3"} {
+				wg.Add(1)
+				go func(pn string) {
+					defer wg.Done()
+					_ = w.PC.sync("n1/" + pn)
+				}(pn)
+			}
+			wg.Wait()
 			return nil
 		})
 	}
